@@ -181,6 +181,49 @@ pub fn copy_then_meld() {
     sym::reach(1);
 }
 
+/// A payload-free record (a deletion) whose parent revision was written by a block that is not an ancestor: replica b
+/// replays a stage exported by a (which it never met) and commits it. A third replica that receives only b's files
+/// must hold the block (and its child) back until a's block and pack arrive.
+pub fn foreign_stage_block() {
+    let copy = |dst: &Ad, src: &Ad, f: &str| {
+        let bytes = src.read().unwrap().read_object(f, 0, 0).unwrap();
+        dst.write().unwrap().write_object(f, &bytes).unwrap();
+    };
+    let mk = |v: serde_json::Value| v.as_object().unwrap().clone();
+    let a = Rep::new();
+    a.m.create_object("o", mk(serde_json::json!({"v": val()}))).unwrap();
+    a.m.commit(None).unwrap().expect("block a");
+    a.m.delete_object("o").unwrap();
+    let stage = a.m.stage().expect("stage");
+    assert!(stage.is_some(), "nothing staged after delete_object");
+    let b = Rep::new();
+    if b.m.replay_stage(&stage).is_err() || !b.m.has_staging() {
+        sym::reach(2);
+        return;
+    }
+    b.m.commit(None).unwrap().expect("block L");
+    b.m.create_object("z", mk(serde_json::json!({"w": 2}))).unwrap();
+    b.m.commit(None).unwrap().expect("block L2");
+    let mut c = Rep::new();
+    let mut files: Vec<String> = b.ad.read().unwrap().list_objects("").unwrap();
+    files.sort();
+    for f in &files {
+        copy(&c.ad, &b.ad, f);
+        c.m.refresh().expect("refresh");
+        assert!(c.m.get_all_objects().is_empty(), "a block whose record refers to an unavailable parent revision took effect");
+        assert!(c.reopen().get_all_objects().is_empty(), "reload applies a block whose record refers to an unavailable parent revision");
+    }
+    let mut more: Vec<String> = a.ad.read().unwrap().list_objects("").unwrap();
+    more.sort();
+    for f in &more {
+        copy(&c.ad, &a.ad, f);
+    }
+    c.m.refresh().expect("refresh");
+    assert!(c.m.get_all_objects().contains("z"), "held-back blocks were not applied after the missing items arrived");
+    assert!(state(&c.reopen()) == state(&c.m), "incremental refresh differs from reload");
+    sym::reach(1);
+}
+
 /// As above for an *update* record: x changes its own element to a content that is already indexed from the pack of a
 /// held-back block, so x's second block carries an update record and no payload of its own.
 pub fn dedup_update() {
